@@ -1,7 +1,10 @@
 use std::{marker::PhantomData, sync::Arc};
 
 use log::info;
+#[cfg(not(anydb_verif))]
 use parking_lot::RwLock;
+#[cfg(anydb_verif)]
+use rawdb::verif::locks::RwLock;
 use rawdb::{Reader, likely, unlikely};
 
 mod any_stored_vec;
@@ -87,6 +90,9 @@ where
             pages: Arc::new(RwLock::new(pages)),
             _strategy: PhantomData,
         };
+
+        #[cfg(anydb_verif)]
+        rawdb::verif::locks::register(&this.pages, "pages");
 
         let len = this.real_stored_len();
         *this.base.mut_prev_stored_len() = len;
